@@ -339,6 +339,22 @@ func C20(r *core.Run) {
 	checkPure(r, rel, "NewHash")
 	soleParser(r)
 	signRejected(r)
+	// the destination slice of parseBase62 is what R-FLOW/align decides, with the names a refactoring gives
+	// the two lengths and their difference followed; the general inventory only knows the literal form
+	alignOpen := false
+	for _, o := range r.Obligs {
+		if o.Rule == "R-FLOW/align" && o.Open() {
+			alignOpen = true
+		}
+	}
+	if !alignOpen {
+		for _, o := range r.Obligs {
+			if o.Rule == "R-PANIC/P2" && o.Open() && strings.Contains(o.Key, "lib/id62.parseBase62 | slice ") {
+				o.Status = "auto:decided by R-FLOW/align in the same check: the slice is reached only under a relation between the two lengths that excludes '>'"
+				o.Why = ""
+			}
+		}
+	}
 }
 
 func max64(a, b int64) int64 {
